@@ -1,13 +1,13 @@
 """C18: Juniper $9$ codec round trip, well-formedness, malformed input refused with ValueError."""
 import vlib
 
-COQ_DEPS = ["lib/Str.v", "gen/G_juniper.v", "model/JunModel.v", "model/JunProofs.v"]
-MODEL_DEPS = COQ_DEPS + ["model/DriverJun.v", "model/Driver.v", "model/Extract.v"]
+COQ_DEPS = ["lib/Str.v", "gen/G_juniper.v", "model/JunModel.v", "model/JunProofs.v", "lib/PyLib.v", "lib/PyRe.v", "gen/G_fn_jun.v", "refine/RefJun.v"]
+MODEL_DEPS = COQ_DEPS + ["model/DriverJun.v", "model/DriverFn.v", "model/Driver.v", "model/Extract.v"]
 TRUSTED_BASE = [
     "Coq 8.16.1 kernel; vm_compute for the finite sweeps over the generated tables (7 rows x 65 previous characters x 256 code points; table sanity facts), lifted with forallb_forall",
     "axioms: none",
     "gen/G_juniper.v: FAMILY, NUM_ALPHA, ALPHA_NUM, EXTRA, ENCODING, MAGIC, _fixedc(0..4) read from the imported module on every run",
-    "hand-written model model/JunModel.v of juniper_decrypt / juniper_nonrandom_encrypt / _gap_encode / _gap / _gap_decode / _nibble, tied by this check's correspondence run; VALID is modelled by hand (prefix, length >= 4, alphabet) and compared with re.search through the malformed stream",
+    "gen/G_fn_jun.v: all seven functions of utils/juniper_secrets.py translated to Gallina on every run (tools/translate.py); per-character functions proved equal to the hand model on their finite domain, loops compared by correspondence", "hand-written model model/JunModel.v of juniper_decrypt / juniper_nonrandom_encrypt / _gap_encode / _gap / _gap_decode / _nibble, tied by this check's correspondence run; VALID is modelled by hand (prefix, length >= 4, alphabet) and compared with re.search through the malformed stream",
 ]
 ASSUMPTIONS = ["plaintext code points 0..255 (the property's domain); larger code points are outside the theorem"]
 RULE = ("encrypt+decrypt for every (salt character in the 65-alphabet, position 0-7, code point 0-255) [quick: a seeded 1/16 sample, thorough: all], random plaintexts to length 200, "
@@ -60,6 +60,9 @@ def run(ctx):
     for s in salts + list(ALPHA):
         enc.append(["jenc", "", s])
     m, i = ctx.correspond(enc, label="encrypt")
+    # the code GENERATED from utils/juniper_secrets.py by the function-level translator, on a sample of the same cases
+    genc = [["gjenc"] + c[1:] for c in (enc if len(enc) < 3000 else rng.sample(enc, 3000))]
+    ctx.correspond(genc, label="generated-code-encrypt")
     dec = []
     for c, out in zip(enc, i):
         if not out.startswith("OK:"):
@@ -91,6 +94,8 @@ def run(ctx):
         mal.append(["jdec", s])
     dcases = [d for _, d in dec] + mal
     m2, i2 = ctx.correspond(dcases, label="decrypt")
+    gdec = [["gjdec"] + c[1:] for c in (dcases if len(dcases) < 3000 else rng.sample(dcases, 3000))]
+    ctx.correspond(gdec, label="generated-code-decrypt")
     for (c, d), out in zip(dec, i2[: len(dec)]):
         if out != "OK:" + c[1]:
             if c[1] == "":
